@@ -254,6 +254,8 @@ impl Address {
     /// # Safety
     /// This could throw a segment fault if the address is invalid
     pub unsafe fn atomic_load<T: Atomic>(self, order: Ordering) -> T::Type {
+        #[cfg(feature = "verif")]
+        crate::util::verif::rt::sched_point(crate::util::verif::rt::Kind::AtomicLoad, self.0);
         let loc = &*(self.0 as *const T);
         loc.load(order)
     }
@@ -262,6 +264,8 @@ impl Address {
     /// # Safety
     /// This could throw a segment fault if the address is invalid
     pub unsafe fn atomic_store<T: Atomic>(self, val: T::Type, order: Ordering) {
+        #[cfg(feature = "verif")]
+        crate::util::verif::rt::sched_point(crate::util::verif::rt::Kind::AtomicStore, self.0);
         let loc = &*(self.0 as *const T);
         loc.store(val, order)
     }
@@ -276,6 +280,8 @@ impl Address {
         success: Ordering,
         failure: Ordering,
     ) -> Result<T::Type, T::Type> {
+        #[cfg(feature = "verif")]
+        crate::util::verif::rt::sched_point(crate::util::verif::rt::Kind::AtomicCas, self.0);
         let loc = &*(self.0 as *const T);
         loc.compare_exchange(old, new, success, failure)
     }
